@@ -17,6 +17,10 @@ CLAIMED = {
          'Every evaluation must return the specification sequence; >= 64 evaluations per key-set size are counted in the evidence.', '6 C07'),
  'C08': ('TLA+ law Compose model-checked on Select; the same law checked oracle-free on the real library (three retrievals per split, union and recursive-descent corollaries)',
          'Every split point of every enumerated path; Q restricted as the property states.', '6 C08'),
+ 'C09': ('TLA+ FilterProto (the value-list protocol refines per-member Boolean logic, 38k states quick / 6.8M thorough) and the laws LawBoolean/LawNe/LawMirror/LawLe model-checked on Holds; every enumerated (container, query) checked on the real library: intersection/union/complement/mirror/le-is-lt-or-eq relations between real selections, and the selection against Holds',
+         'All atoms (six operators x operand kinds x orders, literals of every type, regex, existence) and all pairs of 15 representative atoms over containers of <= 2 distinct members (arrays and objects).', '6 C09'),
+ 'C10': ('TLA+ Holds is type-strict (LawTypeStrict model-checked); every enumerated comparison filter evaluated on the document decoded as float64, json.Number and json.Number with two other spellings: same members selected, equal to the specification',
+         'All comparison atoms over members of every JSON type.', '6 C10'),
  'C11': ('TLA+ Slice: mechanism (two implementations, normalise, guarded loop) = Python definition, in range, monotone, for all start/end/step in {omitted} U [-7..7] U five boundary magnitudes x lengths 0..6; every slice and index replayed on the real library',
          'Exhaustive over the stated space (64 974 states) in the quick tier.', '6 C11'),
  'C12': ('TLC-enumerated cases (paths with trailing and in-filter functions) evaluated once per accessor mode with identical recording function sets', 'Parity of length, Get() values, errors and function call logs on every enumerated case.', '6 C12'),
@@ -37,8 +41,6 @@ CLAIMED = {
 PENDING = {
  'C05': 'history family (Machine.tla) under construction in this session',
  'C06': 'schedule family (Conc.tla, hooks) under construction in this session',
- 'C09': 'filter family (Gen_Filter / FilterProto.tla) under construction in this session',
- 'C10': 'filter family (Gen_Filter) under construction in this session',
  'C19': 'parse-history family (Machine.tla) under construction in this session',
 }
 NOTE = 'TLC and the TLA+ modules in /verif/spec are trusted; the Go harness converts model values; bounded scope.'
